@@ -314,7 +314,8 @@ def gen_plan(rng, tier):
         elif r < 0.76 and enabled["stack"]:
             ops.append(["stack_compute", e, int(math.exp(rng.uniform(math.log(5), math.log(80))))])
         elif r < 0.88 and enabled["stale"]:
-            ops.append(["stale", rng.randrange(nsets), rng.choice(["pos", "layer", "stub", "all"]), rng.randrange(1 << 30)])
+            ops.append(["stale", rng.randrange(nsets), rng.choice(["pos", "layer", "stub", "all", "usercalls", "solve"]),
+                        rng.randrange(1 << 30)])
         elif r < 0.90 and rng.random() < 0.5:
             ops.append(["inspect", e, rng.randrange(1 << 30)])
         elif r < 0.94:
@@ -938,6 +939,26 @@ def _run(plan):
                 r = random.Random(seed)
                 changed = False
                 touch({id(n) for n in objs[s]})
+                if what == "usercalls":
+                    # the user calls public Node methods between layouts
+                    for n in objs[s]:
+                        k = r.random()
+                        if k < 0.3:
+                            n.moveToIdealPosition()
+                        elif k < 0.5:
+                            n.removeStub()
+                        elif k < 0.6 and n.parent is not None:
+                            n.parent.removeStub()
+                        changed = True
+                elif what == "solve":
+                    # the user runs the overlap removal directly on the labels
+                    from labella.removeOverlap import removeOverlap as _ro
+
+                    try:
+                        _ro(list(objs[s]), {"nodeSpacing": r.choice([0, 3, 12]), "minPos": None, "maxPos": None})
+                    except Exception:
+                        pass
+                    changed = True
                 for n in objs[s]:
                     if what in ("pos", "all") and r.random() < 0.7:
                         n.currentPos = r.choice([n.idealPos + r.randrange(-300, 300), -1e6, 12345.5])
